@@ -48,6 +48,7 @@ pub fn general_scope(tier: &str) -> TreeScope {
   small.push(nv[1].clone());
   small.push(nv[4].clone());
   small.push(nv[6].clone());
+  small.push(nv[nv.len() - 1].clone()); // name table listing one string twice
   TreeScope {
     leaves,
     small_leaves: small,
@@ -813,6 +814,70 @@ pub fn c17_tree_worker(tier: &str, k: usize, n: usize, ctx: &mut Ctx) {
               crate::set_current_case(&w);
               ctx.states += 1;
               tc::all_methods_return(ctx, &w);
+            }
+          }
+        }
+      }
+    }
+    crate::clear_current_case();
+  }
+  // sorted maps with a segment FAR beyond its line (a few columns, 2^31, u32::MAX - 1, u32::MAX),
+  // optionally followed by a segment on the next line, under every pair of replacements (nested,
+  // overlapping, with line breaks in the content) - the columns a ReplaceSource reports and returns
+  // are computed from the inner chunk's column, and a parent ConcatSource adds to what is returned
+  {
+    use crate::refcodec::Seg;
+    use crate::term::Repl;
+    let mut st = Striper::new(k, n);
+    let thorough = tier == "thorough";
+    let cols: &[u32] = &[3, 7, 18, 1 << 31, u32::MAX - 1, u32::MAX];
+    let kinds = [None, Some(K_A)];
+    let contents: &[&str] = if thorough { &["", "XY", "\nZ", "Y\nZ"] } else { &["", "\nZ", "Y\nZ"] };
+    let texts: &[&str] = if thorough { &["abcdef", "aa\n", "ab\ncd"] } else { &["abcdef", "aa\n"] };
+    for &text in texts {
+      let len = text.len() as u32;
+      let mut ranges: Vec<(u32, u32)> = Vec::new();
+      for s in 0..=len + 1 {
+        for e in s..=len + 1 {
+          ranges.push((s, e));
+        }
+      }
+      for &c in cols {
+        for kind in kinds {
+          for shape in 0..3 {
+            // 0: the far segment alone; 1: followed by a segment on line 2; 2: preceded by one at column 0
+            let mut segs = vec![Seg { gl: 1, gc: c, orig: kind }];
+            if shape == 1 {
+              segs.push(Seg { gl: 2, gc: 0, orig: Some(K_A) });
+            }
+            if shape == 2 {
+              segs.insert(0, Seg { gl: 1, gc: 0, orig: Some(K_A) });
+            }
+            let leaf = Term::sms(text, "far.js", trees::map_spec(segs, true));
+            for &(s1, e1) in &ranges {
+              for &(s2, e2) in &ranges {
+                if !st.mine() {
+                  continue;
+                }
+                for c1 in contents {
+                  for c2 in contents {
+                    let inner = Term::replace(leaf.clone(), vec![Repl::new(s1, e1, c1), Repl::new(s2, e2, c2)]);
+                    let mut ws = vec![Term::concat(vec![inner.clone(), Term::raw("0123456789abcdef")])];
+                    // a second ReplaceSource on top (quick: over the 3-byte text only)
+                    if thorough || len <= 3 {
+                      for (s3, e3, c3) in [(0u32, 1u32, ""), (1, 3, ""), (0, 1, "X"), (1, 1, "X"), (2, 4, "")] {
+                        ws.push(Term::replace(inner.clone(), vec![Repl::new(s3, e3, c3)]));
+                      }
+                    }
+                    for w in ws {
+                      crate::set_current_case(&w);
+                      ctx.states += 1;
+                      ctx.count("far_column_family_trees");
+                      tc::all_methods_return(ctx, &w);
+                    }
+                  }
+                }
+              }
             }
           }
         }
